@@ -350,6 +350,56 @@ pub fn check_reuse(r: &mut Report, t: &Trace, c: &Cfg) {
     }
 }
 
+/// A filter installed over an earlier one replaces it: `with_filter(narrow).with_filter(f)` behaves like
+/// `with_filter(f)`, for every f including the configuration without any sub-filter (which admits everything).
+pub fn check_refilter(r: &mut Report, t: &Trace, c: &Cfg) {
+    let narrow = Cfg { deny: false, pf: Some(PF { sp: vec![], dp: vec![9], sr: vec![], dr: vec![], any: false }), af: None, sf: None };
+    for an in ["tcp", "http", "tls", "unified"] {
+        r.exec(2 * t.frames.len() as u64);
+        let res = guarded(|| -> Result<(Vec<String>, Vec<String>), String> {
+            let p = crate::drv::scratch_pcap(&t.frames);
+            let path = p.to_str().unwrap_or("").to_string();
+            macro_rules! both {
+                ($mk:expr, $narrow:expr, $f:expr, $conv:expr) => {{
+                    let mut out = vec![];
+                    for twice in [false, true] {
+                        let (tx, rx) = std::sync::mpsc::channel();
+                        let mut a = $mk;
+                        if twice {
+                            a = a.with_filter($narrow);
+                        }
+                        a = a.with_filter($f);
+                        a.analyze_pcap(&path, tx, None).map_err(|e| e.to_string())?;
+                        drop(a);
+                        out.push(rx.iter().map($conv).collect::<Vec<String>>());
+                    }
+                    out
+                }};
+            }
+            let d = crate::drv::db_arc();
+            let out = match an {
+                "tcp" => both!(huginn_net_tcp::HuginnNetTcp::new(Some(d.clone()), 16).map_err(|e| e.to_string())?, cfg_tcp(&narrow), cfg_tcp(c), |o| format!("{:?}", crate::drv::tcp_res(&o))),
+                "http" => both!(huginn_net_http::HuginnNetHttp::new(Some(d.clone()), 16).map_err(|e| e.to_string())?, cfg_http(&narrow), cfg_http(c), |o| format!("{:?}", crate::drv::http_res(&o))),
+                "tls" => both!(huginn_net_tls::HuginnNetTls::new(16), cfg_tls(&narrow), cfg_tls(c), |o| format!("{:?}", crate::drv::tls_out(&o))),
+                _ => both!(huginn_net::HuginnNet::new(Some(crate::drv::db()), 16, None).map_err(|e| e.to_string())?, cfg_tcp(&narrow), cfg_tcp(c), |o| format!("{:?}", crate::drv::uni_res(&o))),
+            };
+            let _ = std::fs::remove_file(&p);
+            let mut it = out.into_iter();
+            Ok((it.next().unwrap_or_default(), it.next().unwrap_or_default()))
+        });
+        match res {
+            Err(p) => r.dev(format!("C15/{an}/refilter/panic"), "panic", || json!({"kind": "refilter", "trace": t.name, "filter": c, "detail": p})),
+            Ok(Err(e)) => r.machinery_error(format!("refilter route failed: {e}")),
+            Ok(Ok((once, twice))) => {
+                r.outcome(&(an, "refilter", once.len()));
+                if once != twice {
+                    r.dev(format!("C15/{an}/refilter/filter-installed-over-an-earlier-one-does-not-replace-it"), "refilter", || json!({"kind": "refilter", "trace": t.name, "filter": c, "analyzer": an, "results_with_filter": once.len(), "results_with_narrow_then_filter": twice.len()}));
+                }
+            }
+        }
+    }
+}
+
 pub fn run(thorough: bool) -> Outcome {
     let ts = traces();
     let fs = filters();
@@ -370,6 +420,13 @@ pub fn run(thorough: bool) -> Outcome {
                 check(&mut r, &ts[i], c);
                 if ts[i].name.starts_with("two-connections") && ts[i].name.ends_with("alternating") && (thorough || k % 3 == 0 || k == fs.len() - 1) {
                     check_reuse(&mut r, &ts[i], c);
+                    check_refilter(&mut r, &ts[i], c);
+                }
+                if k == 0 && ts[i].name.starts_with("two-connections") {
+                    // the configuration without any sub-filter admits everything, in either mode
+                    for deny in [false, true] {
+                        check_refilter(&mut r, &ts[i], &Cfg { deny, pf: None, af: None, sf: None });
+                    }
                 }
             }
             if i % 97 == 0 {
@@ -380,7 +437,7 @@ pub fn run(thorough: bool) -> Outcome {
     });
     Outcome {
         report: rep,
-        rule: "traces: a 4-frame connection (SYN, SYN+ACK, HTTP request or ClientHello, response) and truncations of its SYN for IPv4 header lengths 0..15 and IPv6 x 5 framings (raw, Ethernet, NULL 1e/02/1c) x 2 port pairs; three pairs of connections with different endpoints, alternating and sequential; x 39 filter configurations (each sub-filter alone and combined, allow and deny, ports that only exist inside a mis-sized IPv4 header); TCP, HTTP, TLS and unified analyzers through analyze_pcap with the filter vs without filter on the admitted sub-trace; reuse: one analyzer object (sequential, and parallel with init_pool before each capture) analysing the two-connection traces twice in a row, filtered vs unfiltered on the sub-trace; distinct = distinct filtered result lists".into(),
+        rule: "traces: a 4-frame connection (SYN, SYN+ACK, HTTP request or ClientHello, response) and truncations of its SYN for IPv4 header lengths 0..15 and IPv6 x 5 framings (raw, Ethernet, NULL 1e/02/1c) x 2 port pairs; three pairs of connections with different endpoints, alternating and sequential; x 39 filter configurations (each sub-filter alone and combined, allow and deny, ports that only exist inside a mis-sized IPv4 header); TCP, HTTP, TLS and unified analyzers through analyze_pcap with the filter vs without filter on the admitted sub-trace; reuse: one analyzer object (sequential, and parallel with init_pool before each capture) analysing the two-connection traces twice in a row, filtered vs unfiltered on the sub-trace; refilter: with_filter(narrow).with_filter(f) equals with_filter(f) on all four analyzers, f incl. the configuration without sub-filters; distinct = distinct filtered result lists".into(),
         exhaustive: true,
         bounds: json!({"traces": n, "filters": fs.len()}),
     }
@@ -392,6 +449,7 @@ pub fn replay(ex: &Value) -> Report {
     let name = ex["trace"].as_str().unwrap_or("");
     match (ts.iter().find(|t| t.name == name), serde_json::from_value::<Cfg>(ex["filter"].clone())) {
         (Some(t), Ok(c)) if ex["kind"].as_str() == Some("reuse") => check_reuse(&mut r, t, &c),
+        (Some(t), Ok(c)) if ex["kind"].as_str() == Some("refilter") => check_refilter(&mut r, t, &c),
         (Some(t), Ok(c)) => check(&mut r, t, &c),
         _ => r.machinery_error("bad replay file"),
     }
